@@ -59,6 +59,16 @@ Theorem C12_documented_regex_converse : forall (s : text) (c : caps) (se : N * N
   extract_reference the_params s = Some n.
 Proof. exact documented_regex_converse. Qed.
 
+(* Ref-like text elsewhere does not count: when the documented regex finds nothing, or its first
+   match starts after offset 0, Breadlog does not treat the message as referenced. *)
+Theorem C12_later_match_does_not_count : forall s : text,
+  match captures re_documented s with
+  | None => True
+  | Some c => exists i e, get_cap c 0 = Some (i, e) /\ 0 < i
+  end ->
+  extract_reference the_params s = None.
+Proof. exact later_match_not_reference. Qed.
+
 (* decimal printing and u32 parsing are inverse on the whole ID range *)
 Theorem C12_dec_parse : forall n : N, n <= 4294967295 -> parse_u32 (dec n) = Some n.
 Proof. exact parse_u32_dec. Qed.
@@ -77,4 +87,12 @@ Example C12_agrees_nonvacuous :
   /\ match captures re_documented [91; 114; 101; 102; 58; 32; 48; 48; 55; 93; 120] with
      | Some c => get_cap c 1 = Some (6, 9) /\ get_cap c 0 = Some (0, 10)
      | None => False end.
+Proof. vm_compute. repeat split. Qed.
+
+(* non-vacuity: a token in the middle of the message is found by the documented regex at offset 2 *)
+Example C12_later_nonvacuous :
+  match captures re_documented [120; 32; 91; 114; 101; 102; 58; 32; 55; 93] with
+  | Some c => get_cap c 0 = Some (2, 10)
+  | None => False end
+  /\ extract_reference the_params [120; 32; 91; 114; 101; 102; 58; 32; 55; 93] = None.
 Proof. vm_compute. repeat split. Qed.
